@@ -76,6 +76,10 @@ class World(EventDispatcher):
 
         if entity_id is None:
             entity_id = next(self.id_generator)
+            # Never reuse an identifier that is already in use (eg.
+            # because it was given explicitly by the user)
+            while entity_id in self._entities:
+                entity_id = next(self.id_generator)
 
         # Code duplication for performance, see add_component
         for component in components:
